@@ -26,7 +26,13 @@ RULE = ("catalogue (every concurrency setting -5..1000 x list lengths 1..5; ever
         "queries padded (EDNS0 padding in qCtx.QOpt()) to exactly 4096, 8189..8193 (pool.PackBuffer's 8191 byte scratch "
         "buffer holds a message of at most 8190 bytes, larger ones are packed into a fresh slice), 9000, 16383, 16384, "
         "20000, 32768, 65534 and 65535 bytes on the wire, in the catalogue at concurrency 1, 3 and through a tag subset, "
-        "in 1/25 of the random scripts and 1/6 of the late-helper cases; in every case the bytes each "
+        "in 1/25 of the random scripts and 1/6 of the late-helper cases + caller contexts: cancel-only, or with a deadline "
+        "5 s, 6 s, 30 s or 1 h after the start of the call (catalogue: alone, next to silent upstreams, with cancellation, "
+        "all-at-once; 1/3 of the random and late-helper scripts), 1 s and already expired only where the script ends the "
+        "context before the call; the one exchange that really runs into the upstream deadline has a caller deadline of "
+        "30 s; the deadline of the context every upstream call received is read and compared (floor of its distance from "
+        "before the call >= 5 s, ceil of its distance from inside the upstream <= 5 s, both exact inequalities, no "
+        "waiting); in every case the bytes each "
         "upstream call received are compared with this call's packed query and must sit in a buffer of their own; "
         "a case is non-trivial "
         "when at least two upstreams are queried and a bad outcome arrives before a good one or the context is cancelled "
@@ -51,7 +57,8 @@ TRUSTED_BASE = [
     "Model.Forward.step; the driver checks its consequences (results, every worker ends) but not the transcription itself",
     "verif-only constructor plugin/executable/forward/zz_verif_export.go (VerifNewForward)",
 ]
-LEVEL_TEXT = ("Theorems in coq/Properties/C14.v: for every configured concurrency the clamp is in 1..3; for every start, count and "
+LEVEL_TEXT = ("Theorems in coq/Properties/C14.v: for every configured concurrency the clamp is in 1..3; for every caller deadline the "
+              "context handed to an upstream expires queryTimeout = 5 s after its creation (c14_upstream_deadline_bound); for every start, count and "
               "list length the queried positions are the c cyclically consecutive ones (distinct if c <= n, repeating with period n "
               "otherwise) and each gets the query bytes unchanged; for EVERY arrival order and every mix of outcomes the collection "
               "loop returns the first NOERROR/NXDOMAIN reply, else the last exchange's reply whatever its rcode or the all-failed "
